@@ -272,6 +272,115 @@ class Reconnect(Scenario):
                 tuple((k, v['state']) for k, v in sorted(w.objs['st'].items()) if isinstance(v, dict) and 'state' in v))
 
 
+# ---- reconnect() asked for in the middle of a teardown ----------------------------------------------------------------------
+STEP_CAUSES = ('healthy', 'eof', 'rst', 'wr')
+STEPS = 16
+
+
+def reconnect_at_step(flavour, cause, k, twice, part):
+    """The DEV scenarios run the loop to quiescence between events, so a reconnect request never lands inside the teardown of the
+    previous connection. Here the connection ends by `cause`, the loop runs exactly k iterations, and then the application calls
+    reconnect() (twice in a row if `twice`): the next transport is taken, starts with one SETUP, and a request issued afterwards is
+    answered; the old transport is closed; requests pending on the old connection have failed."""
+    from mc.world import World
+    w = World()
+    try:
+        conns = [w.new_conn(flavour) for _ in range(3)]
+        late = []
+
+        def rr(h, p):
+            d = bytes(p.data or b'')
+            if d.startswith(b'late'):
+                f = w.loop.create_future()
+                late.append(f)
+                return f
+            from rsocket.helpers import create_future
+            return create_future(P(b'R:' + d))
+
+        for c in conns:
+            start_server(w, c, {'request_response': rr})
+        client = start_client(w, conns, {}, keep_alive_period=timedelta(seconds=PERIOD), max_lifetime_period=timedelta(seconds=LIFE))
+
+        def pump():
+            w.run_q()
+            for _ in range(8):
+                moved = False
+                for c in conns:
+                    for d in (c.c2s, c.s2c):
+                        if c.stream:
+                            if d.pending and d.sink_alive():
+                                d.deliver_bytes(len(d.pending))
+                                moved = True
+                        else:
+                            while d.msgs and d.sink_alive():
+                                d.deliver_message()
+                                moved = True
+                w.run_q()
+                if not moved:
+                    break
+
+        w.run_q()
+        pump()
+        fut = watch_future(w, 'c', 'futA', client.request_response(P(b'late-A')))
+        sub = RecSubscriber(w, 'c', 'subB')
+        client.request_stream(P(b'sB')).initial_request_n(1).subscribe(sub)
+        pump()
+        c0 = conns[0]
+        if cause == 'eof':
+            c0.s2c.deliver_eof()
+        elif cause in ('rst', 'wr'):
+            if cause == 'wr':
+                c0.c2s.write_error = True
+            c0.s2c.deliver_error()
+        for _ in range(k):
+            w.loop.step()
+        w.logev(('reconnect-requested', 'step'))
+        w.loop.create_task(client.reconnect())
+        if twice:
+            w.loop.create_task(client.reconnect())
+        w.run_q()
+        pump()
+        probe = watch_future(w, 'c', 'probe', client.request_response(P(b'probe')))
+        pump()
+        part.evaluations += 1
+        part.traces += 1
+        part.transitions += k + 3
+        ctx = 'reconnect-at-step | %s%s' % (cause, ' | twice' if twice else '')
+        wit = {'kind': 'step', 'flavour': flavour, 'cause': cause, 'k': k, 'twice': twice}
+        log = w.log
+        provided = [ev[1] for ev in log if ev[0] == 'provide']
+        part.state((flavour, cause, twice, tuple(provided), probe['state'], fut['state']))
+        part.outcome((tuple(provided), probe['state']))
+        if cause != 'healthy':
+            part.nontriv((flavour, cause, k, twice))
+        out = []
+        if c0.cw.close_calls < 1:
+            out.append(('C17.old-transport-closed', 'C17.old-transport-closed | %s' % ctx, 'close() was never called on the first transport (k=%d)' % k))
+        if len(provided) < 2:
+            out.append(('C17.next-transport-taken', 'C17.next-transport-taken | %s' % ctx, 'the provider was asked for %s only (k=%d)' % (provided, k)))
+        else:
+            new = conns[len(provided) - 1]
+            tx = [ev[2] for ev in log if ev[0] == 'tx' and ev[1] == new.cname]
+            if not tx or tx[0].type != R.SETUP or sum(1 for f in tx if f.type == R.SETUP) != 1:
+                out.append(('C17.fresh-setup', 'C17.fresh-setup | %s' % ctx, 'frames on the newest transport: %s (k=%d)' % ([f.name for f in tx[:5]], k)))
+            reqs = [f for f in tx if f.type in R.REQUEST_TYPES]
+            if reqs and reqs[0].sid != 1:
+                out.append(('C17.stream-ids-restart', 'C17.stream-ids-restart | %s | first-id=%d' % (ctx, reqs[0].sid), 'first request on the newest transport uses stream id %d (k=%d)' % (reqs[0].sid, k)))
+            if probe['state'] != 'result' or probe['value'] != (b'R:probe', b''):
+                out.append(('C17.requests-served-after-reconnect', 'C17.requests-served-after-reconnect | %s | %s' % (ctx, probe['state']),
+                            'request issued after the reconnect ended as %s %s (k=%d, transports taken %s)' % (probe['state'], probe['value'], k, provided)))
+        if fut['state'] == 'pending':
+            out.append(('C17.pending-failed', 'C17.pending-failed | %s | awaitable' % ctx, 'request-response pending on the old connection was never failed (k=%d)' % k))
+        if sub.terminal() is None:
+            out.append(('C17.pending-failed', 'C17.pending-failed | %s | subscriber' % ctx, 'stream pending on the old connection was never failed (k=%d)' % k))
+        for msg, exc, txt in w.loop.read_exc_log():
+            out.append(('C17.no-unhandled-exception', 'C17.no-unhandled-exception | %s | %s' % (ctx, exc), '%s: %s' % (msg, txt)))
+        for rule, sig, detail in out:
+            part.violate(rule, sig, detail, wit)
+    finally:
+        w.teardown()
+
+
 COMBOS = [('eof', 'on_close'), ('eof', 'free'), ('rst', 'on_close'), ('rst', 'free'), ('wr', 'on_close'), ('wr', 'free'),
           ('mute', 'on_timeout'), ('mute', 'free'), ('healthy', 'free')]
 
@@ -325,6 +434,8 @@ def make_units(tier):
         K = 4
         for k in range(K):
             units.append({'cause': cause, 'trigger': trig, 'rounds': 1, 'bound': 1, 'shard': [k, K], 'alts': [], 'flavour': 'quic'})
+    for flavour in ('tcp', 'quic'):
+        units.append({'kind': 'step', 'flavour': flavour, 'cause': 'all', 'trigger': 'step', 'rounds': 1, 'bound': 0, 'shard': [0, 1], 'alts': []})
     if tier == 'thorough':
         for cause, trig in (('healthy', 'free'),):
             K = 32
@@ -342,6 +453,13 @@ def scenario_of(unit):
 
 
 def run_unit(unit, part):
+    if unit.get('kind') == 'step':
+        for cause in STEP_CAUSES:
+            for twice in (False, True):
+                for k in range(STEPS):
+                    reconnect_at_step(unit['flavour'], cause, k, twice, part)
+        part.sample({'kind': 'reconnect-at-step', 'link': unit['flavour'], 'causes': list(STEP_CAUSES), 'loop_iterations_before_reconnect': [0, STEPS - 1]}, limit=1)
+        return
     dev_explore(scenario_of(unit), unit['bound'], part, shard=tuple(unit['shard']), det_every=100)
 
 
@@ -351,4 +469,11 @@ def scenario_from(name, params):
 
 def replay(rec):
     w = rec['witness']
+    if w.get('kind') == 'step':
+        from mc.runner import Partial
+        p = Partial()
+        reconnect_at_step(w['flavour'], w['cause'], w['k'], w['twice'], p)
+        for v in p.violations.values():
+            print(v.rule, '|', v.detail)
+        return bool(p.violations)
     return bool(replay_witness(scenario_from(w['scenario'], w['params']), w))
